@@ -16,6 +16,12 @@ fn check(case: &Case) -> Outcome {
             if s.multi_conn_member > 0 {
                 labels.push("mesh_member_with_2plus_connections");
             }
+            if s.left_one_mesh_stays_in_other_foreign_topic > 0 {
+                labels.push("left_one_mesh_stays_in_another_while_subscribed_to_topic_without_local_mesh");
+            }
+            if s.hb_changed_topic_cfg_mesh > 0 {
+                labels.push("heartbeat_changed_mesh_of_topic_with_own_params");
+            }
             if s.hb_changed_mesh > 0 {
                 labels.push("heartbeat_changed_mesh");
             }
